@@ -85,6 +85,11 @@ func (c *ctl) choices(j Job) []Ev {
 	}
 	if c.parked >= 0 {
 		out = append(out, Ev{K: "closego", I: c.parked})
+		for i := 0; i < next; i++ {
+			if t := c.threads[i]; t != nil && t.returned && t.busy && t.agains < 2 {
+				out = append(out, Ev{K: "again", I: i})
+			}
+		}
 	}
 	for i := 0; i < next && lockOK; i++ {
 		if _, ok := c.pFailed[i]; ok {
@@ -128,6 +133,8 @@ func category(e Ev, c *ctl) (string, int) {
 		return "dial-fail", 3
 	case "closego":
 		return "closego", 3
+	case "again":
+		return "again", 4
 	case "failgo":
 		return "failgo", 5
 	case "release":
@@ -228,6 +235,11 @@ func runJob(j Job, emit func(Line)) {
 		}
 	case "random":
 		r := vh.NewRand(j.Seed)
+		for _, e := range j.Ops {
+			if !play(e, 0) {
+				return
+			}
+		}
 		for d := 0; d < j.Depth; d++ {
 			ch := c.choices(j)
 			if len(ch) == 0 {
@@ -346,6 +358,8 @@ func evTerm(e Ev) string {
 		return "XE (ECancel " + vh.Nat(e.I) + ")"
 	case "closego":
 		return "XCloseGo " + vh.Nat(e.I)
+	case "again":
+		return "XAgain " + vh.Nat(e.I)
 	}
 	panic("evTerm " + e.K)
 }
@@ -612,6 +626,55 @@ func main() {
 	}
 	meta.Extra["exhaustive_depth"] = depth
 	meta.Extra["exhaustive_scripts"] = n
+
+	// contended releases: one address with 1..3 holders, another whose slow
+	// handle is being closed by its last holder (m.mu held); a holder of the
+	// first releases (blocks on m.mu), the same done function is called again
+	// from further goroutines, the Close returns; then a random walk goes on
+	crng := vh.NewRand(vh.NewRand(o.Seed ^ 0x5eed).U64())
+	ncont := 150
+	if o.Thorough() {
+		ncont = 2000
+	}
+	for i := 0; i < ncont; i++ {
+		f := crng.Fork()
+		h := 1 + f.Intn(3)
+		var ops []Ev
+		for t := 0; t < h; t++ {
+			ops = append(ops, Ev{K: "req", I: t})
+		}
+		ops = append(ops, Ev{K: "req", I: h, A: 1})
+		ops = append(ops, Ev{K: "dial", I: 0, OK: true, Slow: f.Chance(1, 3)}, Ev{K: "dial", I: h, OK: true, Slow: true})
+		perm := make([]int, h+1)
+		for t := range perm {
+			perm[t] = t
+		}
+		for t := len(perm) - 1; t > 0; t-- {
+			k := f.Intn(t + 1)
+			perm[t], perm[k] = perm[k], perm[t]
+		}
+		for _, t := range perm {
+			ops = append(ops, Ev{K: "pass", I: t})
+		}
+		if h > 1 && f.Chance(1, 3) {
+			ops = append(ops, Ev{K: "release", I: f.Intn(h)}) // one holder is already gone
+		}
+		ops = append(ops, Ev{K: "release", I: h}) // parks inside Close, holding m.mu
+		v := f.Intn(h)
+		ops = append(ops, Ev{K: "release", I: v}) // blocks on m.mu
+		for k := f.Intn(3); k > 0; k-- {
+			ops = append(ops, Ev{K: "again", I: v})
+		}
+		if f.Chance(1, 3) {
+			ops = append(ops, Ev{K: "again", I: h})
+		}
+		if f.Chance(1, 4) {
+			ops = append(ops, Ev{K: "req", I: h + 1}) // ignored: one lock-kind event per parked Close
+		}
+		ops = append(ops, Ev{K: "closego", I: h})
+		po, pb, _ := r.run(Job{Kind: "random", Ops: ops, Seed: f.U64(), Depth: 2 + f.Intn(6), Threads: 5, Addrs: 2, Rich: false})
+		e.add("contended-release", po, pb)
+	}
 
 	// vh.NewRand(s+1) is vh.NewRand(s) advanced by one draw; re-seed from the
 	// first output so that neighbouring seeds give unrelated walks
